@@ -4,7 +4,7 @@ CONSTANTS
   Vals = {1, 2}
   Cap0 = 4
   HashRange = 8
-  MaxOps = 5
+  MaxOps = 4
 INVARIANTS TypeOK Inv_Lookup Inv_Len Inv_NeverFull Inv_NoDupKey Inv_HashFits Inv_Emit
 VIEW View
 CHECK_DEADLOCK FALSE
